@@ -27,6 +27,7 @@ def errName : Err → String
   | .value => "ValueError"
   | .key => "KeyError"
   | .assertion => "AssertionError"
+  | .index => "IndexError"
 
 def outJson : Except Err Out → Json
   | .error e => err (errName e)
@@ -57,6 +58,7 @@ def parseOp (j : Json) : R Op := do
   | "identify" => pure (.identify (← fInt j "dof"))
   | "projection" => pure (.projection (← fRefs j))
   | "num_dofs" => pure .numDofs
+  | "md_variable" => pure (.mdVariable (← fNat j "name") (← optField (jList jNat) j "domains"))
   | _ => throw s!"unknown op {op}"
 
 def step' (st : St) (j : Json) : R (St × Json) := do
@@ -67,7 +69,15 @@ def step' (st : St) (j : Json) : R (St × Json) := do
     let intfs ← fNatss j "intfs"
     let tbl := subs ++ intfs
     let e : Env := ⟨subs.map (·.getD 0 0), intfs.map (·.getD 0 0), look tbl 1, look tbl 2, look tbl 3⟩
-    pure ((e, init), Json.str "ok")
+    pure ((e, init), obj [("order_nodup", Json.bool (decide e.order.Nodup))])
+  | "regrid" =>
+    -- the entity counts of the grids changed (same md-grid listing); `update_variable_num_dofs()` is called
+    let subs ← fNatss j "subs"
+    let intfs ← fNatss j "intfs"
+    let tbl := subs ++ intfs
+    let e : Env := ⟨st.1.subs, st.1.intfs, look tbl 1, look tbl 2, look tbl 3⟩
+    let r := step e st.2 .updateNumDofs
+    pure ((e, r.1), outJson r.2)
   | "dump" =>
     let s := st.2
     pure (st, obj [
